@@ -295,6 +295,27 @@ RECORD_GRAMMAR = ('IF h = <<>> THEN c.c = "beginrecord" ELSE LET l == h[Len(h)].
 APPEND_ALPHABET = ('{[c |-> "append", src |-> s, at |-> i] : s \\in {"idx64", "idx32", "opt", "lists"}, i \\in {0, 1, 2, 3}} \\cup '
                    '{[c |-> "null"], [c |-> "int", x |-> 1], [c |-> "beginlist"], [c |-> "endlist"], [c |-> "clear"]}')
 
+# Form-driven LayoutBuilder: forms (LayoutBuilder.tla constructors) and the flat command alphabet
+_LBI, _LBR, _LBB = 'FNum("int64")', 'FNum("float64")', 'FNum("bool")'
+_LBXY = 'FRec(<<"x", "y">>, <<%s, %s>>)' % (_LBI, _LBR)
+_LBU = 'FUnion(<<%s, %s>>)' % (_LBR, _LBB)
+LB_FORMS = "{" + ", ".join([
+    _LBI, _LBR, _LBB, "FStr", "FList(%s)" % _LBI, "FList(%s)" % _LBR, "FList(FList(%s))" % _LBI, "FReg(%s, 2)" % _LBI, "FReg(%s, 3)" % _LBI,
+    "FOpt(%s)" % _LBI, "FOpt(FList(%s))" % _LBI, "FList(FOpt(%s))" % _LBI,
+    'FWrap("indexed", %s)' % _LBI, 'FWrap("bytemasked", %s)' % _LBI, 'FWrap("bitmasked", %s)' % _LBI, 'FWrap("unmasked", %s)' % _LBR,
+    _LBXY, 'FRec(<<"x", "y">>, <<%s, FList(%s)>>)' % (_LBI, _LBI), 'FRec(<<"x", "y">>, <<FList(%s), %s>>)' % (_LBI, _LBI),
+    'FRec(<<"x", "y">>, <<FList(%s), FList(%s)>>)' % (_LBI, _LBR), 'FRec(<<"x", "y", "z">>, <<%s, %s, %s>>)' % (_LBI, _LBR, _LBI),
+    "FList(%s)" % _LBXY, "FOpt(%s)" % _LBXY, 'FRec(<<"x", "y">>, <<FOpt(%s), %s>>)' % (_LBI, _LBR),
+    'FRec(<<"a", "b">>, <<%s, %s>>)' % (_LBXY, _LBI), 'FList(FRec(<<"x", "y">>, <<%s, FList(%s)>>))' % (_LBI, _LBI),
+    _LBU, 'FUnion(<<%s, %s>>)' % (_LBR, _LBI), "FList(%s)" % _LBU, "FOpt(%s)" % _LBU, 'FUnion(<<%s, %s>>)' % (_LBXY, _LBR),
+    'FRec(<<"x", "u">>, <<%s, %s>>)' % (_LBI, _LBU), "FList(FStr)", 'FRec(<<"s", "x">>, <<FStr, %s>>)' % _LBI, "FReg(FReg(%s, 2), 2)" % _LBI,
+    # the families of the recorded findings F91 / F92 (kept in the domain so that a different failure on them is still reported)
+    "FList(FReg(%s, 2))" % _LBI, "FReg(FList(%s), 2)" % _LBI, 'FWrap("indexed", FList(%s))' % _LBI, 'FWrap("bytemasked", FList(%s))' % _LBI,
+    'FWrap("unmasked", FList(%s))' % _LBI, 'FUnion(<<%s, FList(%s)>>)' % (_LBR, _LBI)]) + "}"
+LB_ALPHABET = ('{[c |-> "int", x |-> 1], [c |-> "int", x |-> 2], [c |-> "real", n |-> 5, d |-> 2], [c |-> "bool", x |-> 1], [c |-> "null"], '
+               '[c |-> "beginlist"], [c |-> "endlist"], [c |-> "tag", i |-> 0], [c |-> "tag", i |-> 1], [c |-> "tag", i |-> 2], '
+               '[c |-> "str", b |-> <<97, 98>>], [c |-> "str", b |-> <<>>]}')
+
 
 def run_C14(ctx):
     ctx.build("opt")
@@ -322,6 +343,15 @@ def run_C14(ctx):
                   init="BInit", next_="BNext", view=None, action_constraints=["BEmit"],
                   simulate="num=%d" % (20000 if ctx.quick() else 300000), depth=13,
                   translate=("replay", "steps_builder"), judge_fn=("replay", "judge_builder"))
+    # the Form-driven LayoutBuilder: every command sequence that the Form's grammar allows (and the first that it does not),
+    # for every Form of LB_FORMS; the snapshot after every command is compared, all snapshots are re-read at the end
+    ctx.tlc_phase("layoutbuilder-exhaustive", "LayoutBuilder", dict(Forms=LB_FORMS, Alphabet=LB_ALPHABET, MaxCmds=str(6 if ctx.quick() else 8), EmitOn="TRUE"),
+                  invariants=["Monotone", "OnlySentences", "NothingLost"], init="LBInit", next_="LBNext", view="LBView", action_constraints=["LBEmit"],
+                  translate=("replay", "steps_layoutbuilder"), judge_fn=("replay", "judge_layoutbuilder"), require_actions=["LBStep"])
+    ctx.tlc_phase("layoutbuilder-simulate", "LayoutBuilder", dict(Forms=LB_FORMS, Alphabet=LB_ALPHABET, MaxCmds="16", EmitOn="TRUE"),
+                  invariants=["Monotone", "OnlySentences", "NothingLost"], init="LBInit", next_="LBNext", view=None, action_constraints=["LBEmit"],
+                  simulate="num=%d" % (20000 if ctx.quick() else 300000), depth=17,
+                  translate=("replay", "steps_layoutbuilder"), judge_fn=("replay", "judge_layoutbuilder"))
     # code -> spec: long random sessions recorded from the real builder, validated against Builder.tla (TraceBuilder.tla)
     ctx.builder_trace_phase("builder-traces-code-to-spec", 600 if ctx.quick() else 8000, 60)
     ctx.pychain_phase("python-chains-code-to-spec", (4000 if ctx.quick() else 60000), 5, ops={"rt_iter"})
